@@ -164,11 +164,11 @@ PLAN = {
     "C10": dict(
         stages=[ho("C10", q=60), dict(engine="waitrace", shards=dict(quick=4, thorough=16), args=["--quick-n", "480", "--thorough-n", "6000"]), tsan("hostile"), tsan("waitrace", n=60, shards=2, extra=["--flavors", "sync"]), miri("lifecycle")],
         rule=HO + " (barrier mode: disjoint keys per thread, ample capacity, each batch followed by wait() and an immediate check of the thread's own keys) || "
-             "termination: waiters vs close / clear / both, readers and writers on one shard; every flavour; verdict from state (worker exit counters, thread states), never from a timeout",
+             "termination: waiters vs close / clear / both (in half of the closes the processor is parked right after its final drain, still owning the buffer's receiving end, while the waiters go on), readers and writers on one shard; every flavour; verdict from state (worker exit counters, thread states), never from a timeout",
         clauses=["after wait() Ok: a key written exactly once since the previous barrier holds that value and is charged / is gone and uncharged", "keys written several times: store and policy agree",
                  "batches overlapping a clear() or following an Err are not judged (counted)", "wait() returns (Ok or Err) under races with clear() and close(); Err only explainable by a full buffer or closing cache",
                  "a blocked waiter with an exited processor, or a process in which no thread can run, is a violation with stacks"],
-        minimum=dict(quick=dict(ho_c10_exact_key_verdicts=3000, lc_wait_ok=50000, lc_waitrace_scenarios=200)),
+        minimum=dict(quick=dict(ho_c10_exact_key_verdicts=3000, lc_wait_ok=50000, lc_waitrace_scenarios=200, lc_closes_with_processor_parked_after_final_drain=20)),
         assumptions=["several writes to one key between two barriers are applied out of program order by design (updates at once, queued removes and first inserts later)"],
     ),
     "C11": dict(
